@@ -4,12 +4,42 @@ import json, os
 ROOT = os.path.dirname(os.path.dirname(os.path.abspath(__file__)))
 
 CHECKS = {
+ "C01": dict(
+   level="model_checking",
+   text="TLC evaluates the reference semantics MiniGo.tla on every (program, 4-bit input vector) pair of an exhaustive switch/fallthrough family, an exhaustive nested-loop break/continue/return family and VERIF_SEED random programs of the fragment (closures, calls, short-circuit conditions, labelled jumps); every pair is executed on JavaScript compiled by the working tree (plain and resumable form) and must print exactly the predicted trace; the compiler must accept every program and node --check the output. Reference toolchain as specification guard. Bounded to the MiniGo fragment; other language areas are decided by C03, C06-C09, C14, C15.",
+   note="Trusted: TLC, Node, the reference Go toolchain as guard, println of small ints. Programs outside the MiniGo fragment are not covered by this check.",
+   technique="TLA+ reference interpreter (MiniGo.tla) evaluated by TLC, predictions replayed on compiled programs",
+   design="4/C01"),
+ "C02": dict(
+   level="model_checking",
+   text="The MiniGo programs are compiled with trace points that may suspend the goroutine (runtime.Gosched), so every function is emitted in its resumable form; for each of several yield masks (each a different suspend/resume schedule of the same computation, suspension inside arguments, conditions, case expressions, post statements, closures and callees) the compiled program must print exactly what MiniGo.tla predicts, in which a yield is a stuttering step. Exhaustive over the switch and loop families x input vectors x the sampled masks; not all 2^n masks.",
+   note="Trusted: TLC, Node (vm-based runner cross-checked against stand-alone node by C03), native Go as guard. Suspension kinds other than Gosched and call kinds outside the fragment (methods, interfaces, generics, linkname) are not covered yet.",
+   technique="TLA+ reference interpreter with yields as stuttering steps; compiled resumable code replayed under yield masks",
+   design="4/C02"),
+ "C03": dict(
+   level="model_checking",
+   text="GoChan.tla is the reference semantics of channels/select/blocking in invocation-linearisation-response form. TLC explores the forward model GoChanProg.tla (lazily constructed goroutine programs, exhaustive small configurations with invariants, plus -simulate with the full instruction alphabet) and emits programs; each program is compiled by the working tree and executed under Node with scripted scheduling choices (select pick, time-slice breaks, timer firing order); every recorded execution must be accepted by GoChanTrace.tla (TLC, silent linearisation steps), including the deadlock report being raised exactly when nothing can proceed. Native executions of the same programs guard the specification.",
+   note="Trusted: TLC, Node's vm module (cross-checked against stand-alone node processes on a sample in every run), println ordering. Time is abstracted (all timers due at once, any firing order). JSRuntime-level implementation model not built yet.",
+   technique="trace validation of real executions against a TLA+ reference (GoChanTrace.tla) + TLC forward model for scenario generation",
+   design="4/C03"),
  "C06": dict(
    level="model_checking",
    text="TLC validates the width-generic bit-vector operators of Bits.tla against integer arithmetic for all 8-bit operand pairs and enumerates every (operator, type, operand shape, operand value) case of BitsScen.tla inside the bounds with the predicted result; every case is executed on JavaScript compiled by the working tree and compared (replay), with the reference toolchain as specification guard. Exhaustive inside the stated operand pools, not a proof for all 64-bit values.",
    note="Trusted: TLC, Node, the reference Go toolchain as guard, println of <=32-bit integers. Integer types only; float/complex arithmetic is not decided (DESIGN.md section 7).",
    technique="TLA+ reference semantics (Bits.tla) + TLC scenario enumeration replayed on compiled code",
    design="4/C06"),
+ "C08": dict(
+   level="model_checking",
+   text="Unwind.tla is the reference semantics of defer/panic/recover/Goexit (denotational, rules 1-8 of the header); UnwindScen.tla enumerates every function family inside the bounds (exhaustive for one function, -simulate for three) with the predicted prints and termination; RtePanics.tla tabulates the operations that must raise run-time errors with their position in the evaluation order. Every scenario is compiled by the working tree, run once under Node and compared; native Go guards the specification.",
+   note="Trusted: TLC, Node, native Go as guard. Panic values are compared as (class, value number), message tails are not compared. panic(nil) excluded. Goroutine-crossing panics only through the uncaught-panic path.",
+   technique="TLA+ reference semantics (Unwind.tla, RtePanics.tla) + TLC scenario enumeration replayed on compiled code",
+   design="4/C08"),
+ "C16": dict(
+   level="model_checking",
+   text="The MiniGo programs built with minification (plain and resumable form, several yield masks) must print exactly what MiniGo.tla predicts - the same prediction the unminified builds are held to by C01/C02 - and node --check must accept the minified file.",
+   note="Trusted: as C01. The whitespace scanner and the short-name allocator are not yet driven directly through the verif exports (planned: Minify.tla).",
+   technique="TLA+ reference interpreter predictions replayed on minified compiled programs",
+   design="4/C16"),
 }
 
 NOT_YET = "check not built yet in this round (planned in DESIGN.md section 9)"
@@ -53,6 +83,6 @@ def main():
         f.write("\n")
 
 NA = {}
-HOOK_COMMITS = []
+HOOK_COMMITS = ["a1f8310"]
 if __name__ == "__main__":
     main()
